@@ -183,6 +183,12 @@ def check(prop, tier, only=None, list_only=False):
     os.makedirs(os.path.join(evdir, "replays"), exist_ok=True)
 
     machinery_errors = []
+    try:
+        from vf import chmodels
+        n_modelcheck = chmodels.selfcheck()
+    except AssertionError as e:
+        n_modelcheck = 0
+        machinery_errors.append("chmodels selfcheck failed: %r" % (e,))
     violations = []
     known_hits = []
     validated = 0
@@ -319,7 +325,7 @@ def check(prop, tier, only=None, list_only=False):
             "fixed_findings_listed": fixed,
             "machinery_errors": machinery_errors,
             "violations_detail": violations,
-            "selftest_cases": n_self,
+            "selftest_cases": n_self, "library_model_comparisons_vs_cpython": n_modelcheck,
             "outside_the_bound": getattr(mod, "OUTSIDE", []),
             "stubs": getattr(mod, "STUBS", []),
         },
@@ -333,11 +339,11 @@ def check(prop, tier, only=None, list_only=False):
         if r["status"] not in ("confirmed",):
             print("  %-14s %s paths=%d unknown=%d %s" % (r["status"], r["query"], r["paths"], r["unknown_paths"],
                                                         (r["error"] or "")[:300].replace("\n", " | ")))
+    for e in machinery_errors:
+        print("MACHINERY-ERROR:", e)
     if violations:
         return 1
     if machinery_errors:
-        for e in machinery_errors:
-            print("MACHINERY-ERROR:", e)
         return 3
     return 0
 
